@@ -177,6 +177,26 @@ def run(ck, replay=None):
                 e["raised"] = 1
                 e["error"] = repr(ex)[:160]
             events.append(e)
+        # right-hand sides with special blocks: no mass source at all (a Newton update once mass conservation holds exactly),
+        # no flux block, a single non-zero source pair - every formulation solves the SAME system
+        if nf > 0:
+            specials = {"zero-source": np.concatenate([rhs[:nf], np.zeros(nc), [0.0]]),
+                        "zero-flux": np.concatenate([np.zeros(nf), rhs[nf:nf + nc], [0.0]]),
+                        "point-pair": np.concatenate([rhs[:nf], np.eye(1, nc, 0).ravel() - np.eye(1, nc, nc - 1).ravel(), [0.0]])}
+            for label, rhs_s in specials.items():
+                refs = None
+                for form, backend in (combos if not quick else [("flux_reduced", "direct"), ("pressure", "direct"), rng.choice(combos)]):
+                    e = {"tid": f"agree:{label}:{'x'.join(map(str, s))}:{form}:{backend}", "op": "agree", "form": form, "backend": backend, "shape": list(s), "raised": 0, "errexp": 3, "resexp": 3}
+                    try:
+                        sol, M = solve_with(darsia, rng, grid, form, backend, fw, rhs_s)
+                        if refs is None:
+                            refs = dense_solve(M, rhs_s)
+                        e["errexp"] = exponent(relerr(sol, refs, (nf, nc)))
+                        e["resexp"] = exponent(float(np.abs(M @ sol - rhs_s).max()) / max(1e-300, float(np.abs(rhs_s).max())))
+                    except Exception as ex:  # noqa
+                        e["raised"] = 1
+                        e["error"] = repr(ex)[:160]
+                    events.append(e)
     # (b2) the caller's options on systems large enough for a real multigrid hierarchy (pyamg coarsens above 100 unknowns):
     # ONE options dict (tight tolerances) serves two set-ups of one solver object and a second object; every solve has to
     # reach the requested accuracy and the dict stays the caller's
